@@ -137,6 +137,37 @@ def run(prog, rep, tier):
             if labs != "field:file_metadata_modified":
                 rep.violation(R112, inst, "BlockReader::mtime: %s files take their modification time from %s, expected the filesystem time" % (a, sorted(lt)))
 
+    # the stored time is used whenever there is one: the only test allowed on it is "is it zero"; comparing it with
+    # the container file's own time (and preferring the latter) re-introduces the copy/restore time the rule excludes
+    cmp_fs = []
+    for bb in sorted(mb.live):
+        t_ = mb.term(bb)
+        if t_[0] != "switch":
+            continue
+        srcs_ = set()
+        for x in mb.origins(t_[1], through_calls=("::not", "::is_le", "::is_lt", "::is_ge", "::is_gt")):
+            if x[0] == "arg":
+                srcs_.update(q for q in x[2] if isinstance(q, str))
+            elif x[0] == "call":
+                cc_ = [z for z in mb.calls if z.bb == x[1]][0]
+                for a_ in cc_.args:
+                    if a_[0] != "k":
+                        for y in mb.origins(a_, through_calls=("::deref",)):
+                            if y[0] == "arg":
+                                srcs_.update(q for q in y[2] if isinstance(q, str))
+            elif x[0] == "bin":
+                st_ = mb.stmts(x[1])[x[2]]
+                for a_ in (st_[2][2], st_[2][3]):
+                    if a_[0] != "k":
+                        for y in mb.origins(a_):
+                            if y[0] == "arg":
+                                srcs_.update(q for q in y[2] if isinstance(q, str))
+        if "file_metadata_modified" in srcs_:
+            cmp_fs.append(mb.blocks[bb].get("l"))
+    rep.examined(R112, mb.path + "|stored-vs-filesystem", sample={"branches_that_compare_with_the_container_file_time": cmp_fs})
+    if cmp_fs:
+        rep.violation(R112, mb.path + "|stored-vs-filesystem", "BlockReader::mtime decides by comparing with the container file's own modification time (line %s) whether to use the time stored inside the .gz/.tar; "
+                      "an archive that was copied, restored or touched to an earlier year then dates every message of a year-less log by the wrong year" % cmp_fs[0])
     # the stored time itself: read from the container header unconditionally (only the header's presence may gate it)
     nb = prog.body(BR + "::new")
     hm = [c for c in nb.live_calls() if c.d.endswith("GzHeader::mtime") or (c.d.endswith("::mtime") and ("flate2" in c.d or "tar::" in c.d))]
